@@ -994,7 +994,7 @@ def r152(ctx, repo):
     _normalised_vertices(ctx, repo)
 
     # Filter.update feeds axes[0] as x
-    upd = repo.func(FILT, "Filter.update")
+    upd = update_inlined(repo)
     calls = [c for c in find_calls(upd, attr="filter")
              if isinstance(c.func, ast.Attribute) and len(c.args) + len(
                  c.keywords) == 2]
@@ -1299,8 +1299,9 @@ def _normalised_vertices(ctx, repo):
     float array); the raw backing field may hold nested lists (setter,
     __setstate__) whose byte representation / shape differ"""
     cls = repo.cls(POLY, "PolygonFilter")
+    members = class_members(repo, POLY, cls)
     getter = setter = None
-    for f in cls.body:
+    for f in members:
         if isinstance(f, ast.FunctionDef) and f.name == "points":
             decs = [txt(d) for d in f.decorator_list]
             if "property" in decs:
@@ -1326,7 +1327,7 @@ def _normalised_vertices(ctx, repo):
            "to an array", node=getter, label="points property normalises",
            nontrivial=False)
     leaks = []
-    for f in cls.body:
+    for f in members:
         if not isinstance(f, ast.FunctionDef) or f in (getter, setter):
             continue
         for n in walk(f):
@@ -1398,6 +1399,33 @@ def _imports(repo, rel, mod_tail, name):
     return False
 
 
+def class_members(repo, rel, cls):
+    """statements of the class body followed by those of its base classes
+    defined in the same module (own definitions first, as in the MRO)"""
+    out, seen, todo = [], set(), [cls]
+    while todo:
+        c = todo.pop(0)
+        if c.name in seen:
+            continue
+        seen.add(c.name)
+        names = {f.name for f in out if isinstance(f, ast.FunctionDef)}
+        out += [f for f in c.body if not (isinstance(f, ast.FunctionDef)
+                                          and f.name in names)]
+        for b in c.bases:
+            if isinstance(b, ast.Name):
+                bc = repo.cls(rel, b.id, missing_ok=True)
+                if bc is not None:
+                    todo.append(bc)
+    return out
+
+
+def update_inlined(repo):
+    """Filter.update with its sequentially called private steps read in
+    place"""
+    return inline_helpers(repo, FILT, repo.func(FILT, "Filter.update"),
+                          keep=("_init_rtdc_ds", "_get_rw_array"))
+
+
 def _filter_stateless(ctx, filt, call):
     """filter() returns a classification created in this call: it stores
     nothing on the instance / class and the mask it inverts and returns is
@@ -1457,8 +1485,9 @@ def _digest_coverage(ctx, repo, filt):
     consults to re-use a cached classification digests everything the
     classification reads (vertices, inversion, axes)"""
     cls = repo.cls(POLY, "PolygonFilter")
+    members = class_members(repo, POLY, cls)
     props = {}
-    for f in cls.body:
+    for f in members:
         if isinstance(f, ast.FunctionDef) and any(
                 txt(d) == "property" for d in f.decorator_list):
             props[f.name] = f
@@ -1467,7 +1496,7 @@ def _digest_coverage(ctx, repo, filt):
                                                     ).split(".")[-1] in (
                     "hashobj", "md5", "sha256", "hash", "hashfile")
                     for c in walk(f))}
-    upd = repo.func(FILT, "Filter.update")
+    upd = update_inlined(repo)
     def callee_attr(c_):
         f_ = c_.func
         if isinstance(f_, ast.Name):
@@ -1485,7 +1514,7 @@ def _digest_coverage(ctx, repo, filt):
     pf = pfs.pop()
     reads = [n for n in walk(upd) if isinstance(n, ast.Attribute)
              and isinstance(n.value, ast.Name) and n.value.id == pf]
-    methods = {f.name for f in cls.body if isinstance(f, ast.FunctionDef)
+    methods = {f.name for f in members if isinstance(f, ast.FunctionDef)
                and f.name not in props}
     # what the classification depends on
     need = {n.attr for n in walk(filt) if is_self_attr(n) and isinstance(
@@ -2196,7 +2225,8 @@ def _unique_id_rule(ctx, repo):
     has it (decided by scanning the registry); the allocator ends above
     every identifier in use"""
     cls = repo.cls(POLY, "PolygonFilter")
-    methods = {f.name: f for f in cls.body if isinstance(f, ast.FunctionDef)}
+    methods = {f.name: f for f in class_members(repo, POLY, cls)
+               if isinstance(f, ast.FunctionDef)}
     # methods that (transitively) scan the registry of instances
     scanners = set()
     changed = True
@@ -2238,6 +2268,15 @@ def _unique_id_rule(ctx, repo):
         "instances" in txt(test) and UID in names_in(test))
     pol = not (isinstance(test, ast.UnaryOp) and isinstance(
         test.op, ast.Not))
+    for c_ in ast.walk(test):
+        if isinstance(c_, ast.Call) and isinstance(
+                c_.func, ast.Attribute) and txt(c_.func.value) in (
+                "self", "PolygonFilter", "cls") \
+                and c_.func.attr not in methods:
+            raise AnalysisError("_set_unique_id: the test calls "
+                                f"`{c_.func.attr}`, which is not a method "
+                                "of PolygonFilter or a base class in this "
+                                "module")
     ctx.ob("R15.3", bool(uses_scan and pol),
            "a requested identifier is replaced only when the registry scan "
            "finds an instance that has it" if uses_scan and pol else
@@ -2314,7 +2353,8 @@ def _unique_id_rule(ctx, repo):
            label="id allocation")
     # registration is the last effect of the constructor: nothing that can
     # raise runs after the instance entered the registry
-    init = methods["__init__"]
+    init = inline_helpers(repo, POLY, methods["__init__"],
+                          keep=("_load", "_set_unique_id", "_check_data"))
     apps = [n for n in walk(init) if isinstance(n, ast.Call) and last_attr(
         n) in ("append", "add", "insert") and "instances" in txt(n.func)]
     if len(apps) != 1:
@@ -3050,4 +3090,63 @@ TWINS = [
        '        for pf_mask in map(operator.itemgetter(1), '
        'poly_filters.values()):\n'
        '            arr_polygon &= pf_mask\n')]),
+    ('refactoring 6: constructor split into private steps', POLY,
+     [('            filename = pathlib.Path(filename)\n'
+       '            if not isinstance(fileid, int):\n'
+       '                raise ValueError("`fileid` must be an integer!")\n'
+       '            if not filename.exists():\n'
+       '                raise ValueError("Error, no such file: '
+       '{}".format(filename))\n'
+       '            self.fileid = fileid\n'
+       '            # This also sets a unique id\n'
+       '            self._load(filename, unique_id=unique_id)\n'
+       '        else:\n'
+       '            if len(axes) != 2:\n'
+       '                raise ValueError("`axes` must have length 2, "\n'
+       '                                 + "got \'{}\'!".format(axes))\n'
+       '            self.axes = axes\n'
+       '            self.points = np.array(points, dtype=np.float64)\n'
+       '            self.name = name\n'
+       '            if unique_id is None:\n'
+       '                # Force giving away a unique id\n'
+       '                unique_id = self._instance_counter\n'
+       '\n',
+       '            self._init_from_file(filename, fileid, unique_id)\n'
+       '        else:\n'
+       '            unique_id = self._init_from_args(axes, points, name, '
+       'unique_id)\n'
+       '        self._init_register(unique_id)\n'
+       '\n'
+       '    def _init_from_file(self, filename, fileid, unique_id):\n'
+       '        """Initialize the instance from filter `fileid` of a .poly '
+       'file"""\n'
+       '        filename = pathlib.Path(filename)\n'
+       '        if not isinstance(fileid, int):\n'
+       '            raise ValueError("`fileid` must be an integer!")\n'
+       '        if not filename.exists():\n'
+       '            raise ValueError("Error, no such file: '
+       '{}".format(filename))\n'
+       '        self.fileid = fileid\n'
+       '        # This also sets a unique id\n'
+       '        self._load(filename, unique_id=unique_id)\n'
+       '\n'
+       '    def _init_from_args(self, axes, points, name, unique_id):\n'
+       '        """Initialize the instance from `axes`, `points`, and `name`\n'
+       '\n'
+       '        Returns the unique id that must be set for the instance.\n'
+       '        """\n'
+       '        if len(axes) != 2:\n'
+       '            raise ValueError("`axes` must have length 2, "\n'
+       '                             + "got \'{}\'!".format(axes))\n'
+       '        self.axes = axes\n'
+       '        self.points = np.array(points, dtype=np.float64)\n'
+       '        self.name = name\n'
+       '        if unique_id is None:\n'
+       '            # Force giving away a unique id\n'
+       '            unique_id = self._instance_counter\n'
+       '        return unique_id\n'
+       '\n'
+       '    def _init_register(self, unique_id):\n'
+       '        """Set the unique id, check the data, and register the '
+       'instance"""\n')]),
 ]
